@@ -3,6 +3,8 @@
 #[macro_use]
 extern crate zeroize;
 
+#[macro_use]
+mod shadow;
 mod checks;
 mod conv;
 mod h2cref;
